@@ -6,7 +6,7 @@ from .. import sym
 from ..evalfn import SELF
 from ..source import AnalysisError
 from ..sym import canon
-from .common import ALGOS, BACKTEST, CORE, G, Roles, dominates, fld, guard_subset, has_lit, plain, short
+from .common import working_for, ALGOS, BACKTEST, CORE, G, Roles, dominates, fld, guard_subset, has_lit, plain, short
 from .core_rules import bound_args, equal
 
 ADJUST_SITES = {
@@ -28,6 +28,13 @@ def adjust_call_sites(chk, pid):
                 n += 1
                 chk.site()
                 exp = ADJUST_SITES.get(f.qual)
+                hostq = f.qual
+                if exp is None:
+                    # a private helper inherits the role of the function(s) it was extracted from
+                    quals = sorted(set(h.qual for h in working_for(chk.prog, f)))
+                    exps = set(ADJUST_SITES.get(q) for q in quals)
+                    if quals and len(exps) == 1 and None not in exps:
+                        exp, hostq = exps.pop(), quals[0]
                 if exp is None:
                     chk.ob("C03.R4", False, f.module, f.qual, "adjust-site:unclassified", "an adjust() call site outside the enumerated table: its flow flag cannot be vouched for",
                            where="%s:%d" % (f.module, node.lineno), found=ast.unparse(node)[:120])
@@ -38,9 +45,9 @@ def adjust_call_sites(chk, pid):
                 flow_pos = node.args[2] if len(node.args) > 2 else None
                 given = flow_kw[0].value if flow_kw else flow_pos
                 ok = given is None or (isinstance(given, ast.Constant) and given.value is True)
-                if f.qual == "StrategyBase.setup" and pid != "C09":
+                if hostq == "StrategyBase.setup" and pid != "C09":
                     continue
-                if f.qual != "StrategyBase.setup" and pid == "C09":
+                if hostq != "StrategyBase.setup" and pid == "C09":
                     continue
                 chk.ob("C03.R4", ok, f.module, f.qual, "adjust-flow:%s" % f.qual, "capital injected here is an external flow and must not move the index (%s)" % exp[1],
                        where="%s:%d" % (f.module, node.lineno), expected="flow=True (default)", found=ast.unparse(node)[:120], sample={"call": ast.unparse(node)[:100]})
